@@ -637,6 +637,90 @@ def check_outpos(ck, prog):
     return n
 
 
+def check_window(ck, prog):
+    """Match-finder window rule: a candidate at distance delta = pos - cur_match may be used only if
+    delta < cyclic_size (= dict_size + 1), i.e. the chain/tree walk stops on `delta >= cyclic_size`.  The three walkers
+    (hc_find_func, bt_find_func, bt_skip_func) are siblings and must agree; the son[] index wraps with
+    `delta > cyclic_pos`.  With `>` instead of `>=` the encoder emits a distance one larger than the dictionary the
+    decoder keeps (valid-looking stream that the decoder rejects)."""
+    ck.rule("C01-WINDOW", "hash-chain and binary-tree walkers stop at delta >= cyclic_size and wrap the son index with "
+                          "delta > cyclic_pos (sibling agreement)")
+    n = 0
+    for fn in ("hc_find_func", "bt_find_func", "bt_skip_func"):
+        f = prog.fn(fn, "lz_encoder_mf.c")
+        ck.saw_function(f)
+        stop = []
+        for b in f.blocks.values():
+            if b.term and "cond" in b.term:
+                c = ex.strip(b.term["cond"])
+                if c.get("k") == "bin" and {ex.show(c["l"]), ex.show(c["r"])} == {"delta", "cyclic_size"}:
+                    rel = c["op"] if ex.show(c["l"]) == "delta" else {"<": ">", ">": "<", "<=": ">=", ">=": "<="}.get(c["op"], c["op"])
+                    stop.append((rel, c))
+        wraps = []
+        for b, i, e in f.iter_elems():
+            for x in ex.walk(e, into_refs=False):
+                if x.get("k") == "cond":
+                    c = ex.strip(x["c"])
+                    if c.get("k") == "bin" and {ex.show(c["l"]), ex.show(c["r"])} == {"delta", "cyclic_pos"}:
+                        rel = c["op"] if ex.show(c["l"]) == "delta" else {"<": ">", ">": "<", "<=": ">=", ">=": "<="}.get(c["op"], c["op"])
+                        wraps.append((rel, ex.show(x["t"]), ex.show(x["f"])))
+        for b in f.blocks.values():
+            if b.term and b.term.get("kind") == "ConditionalOperator" and "cond" in b.term:
+                c = ex.strip(b.term["cond"])
+                if c.get("k") == "bin" and {ex.show(c["l"]), ex.show(c["r"])} == {"delta", "cyclic_pos"}:
+                    rel = c["op"] if ex.show(c["l"]) == "delta" else {"<": ">", ">": "<", "<=": ">=", ">=": "<="}.get(c["op"], c["op"])
+                    wraps.append((rel, None, None))
+        if not stop or not wraps:
+            raise AnalysisBroken("%s: window test (delta vs cyclic_size) or son-index wrap (delta vs cyclic_pos) not found" % fn)
+        n += 1
+        ok = all(r == ">=" for r, c in stop) and all(w[0] == ">" for w in wraps)
+        ck.ob("C01-WINDOW", fn, ok, common.where(f, stop[0][1]),
+              "%s: stops on delta >= cyclic_size, wraps on delta > cyclic_pos" % fn if ok else
+              "%s(): the walk stops on `delta %s cyclic_size` and wraps the son index on `delta %s cyclic_pos` (expected >= and "
+              ">): a candidate exactly cyclic_size positions back is taken, i.e. a match distance one larger than the "
+              "dictionary; the decoder rejects the stream" % (fn, stop[0][0], wraps[0][0]), key="WINDOW:" + fn)
+    ck.floor("C01-WINDOW", 3)
+
+
+def check_limit_terms(ck, prog):
+    """lzma_lzma_encode() stops filling an LZMA2 chunk when `*out_pos + rc_pending() >= LZMA2_CHUNK_MAX - LOOP_INPUT_MAX`.
+    One loop iteration encodes a whole optimum run: up to OPTS + 1 input bytes (OPTS = length of coder->opts[]), which
+    can produce about as many output bytes when incompressible.  The margin therefore has to be at least OPTS + 1; the
+    constant is read from the (constant-folded) comparison and OPTS from the array type of the record member."""
+    ck.rule("C01-LIMITS", "the LZMA2 chunk cut-off leaves room for one whole loop iteration (OPTS + 1 bytes)")
+    f = prog.fn("lzma_lzma_encode", "lzma_encoder.c")
+    ck.saw_function(f)
+    conds = [b.term["cond"] for b in f.blocks.values() if b.term and "cond" in b.term and "rc_pending" in ex.show(b.term["cond"])]
+    if not conds:
+        raise AnalysisBroken("lzma_lzma_encode: no branch condition mentioning rc_pending()")
+    c = ex.strip(conds[0])
+    lim = ex.const_val(c.get("r")) if c.get("k") == "bin" and c["op"] in (">=", ">") else None
+    if lim is None:
+        raise AnalysisBroken("lzma_lzma_encode: `%s` is not a comparison with a constant" % ex.show(c)[:80])
+    if c["op"] == ">":
+        lim += 1
+    opts = None
+    import re
+    for rn, rec in prog.records.items():
+        if rn.startswith("lzma_lzma1_encoder"):
+            for fd_ in rec["fields"]:
+                if fd_["n"] == "opts":
+                    m = re.search(r"\[(\d+)\]", fd_.get("ty") or "")
+                    if m:
+                        opts = int(m.group(1))
+    if opts is None:
+        raise AnalysisBroken("length of lzma_lzma1_encoder.opts[] not found")
+    CH = 1 << 16
+    ok = lim <= CH - (opts + 1)
+    ck.ob("C01-LIMITS", "lzma2-chunk-cutoff", ok, common.where(f, conds[0]),
+          "chunk cut-off at %d = LZMA2_CHUNK_MAX - %d, one loop iteration is at most OPTS + 1 = %d bytes" % (lim, CH - lim, opts + 1)
+          if ok else
+          "lzma_lzma_encode(): the chunk is cut only at %d output bytes, a margin of %d below LZMA2_CHUNK_MAX, but one loop "
+          "iteration can add OPTS + 1 = %d bytes: an incompressible chunk can outgrow 64 KiB and the 16-bit size field of "
+          "the uncompressed fallback wraps" % (lim, CH - lim, opts + 1), key="LIMITS:lzma2-chunk-cutoff")
+    ck.floor("C01-LIMITS", 1)
+
+
 def check_order(ck, prog):
     """Two ordering obligations of the LZMA encoders."""
     ck.rule("C01-ORDER", "position bookkeeping is committed before the encoder can suspend; the history reserve for "
@@ -712,5 +796,9 @@ def run(ck):
     check_lzma2_flags(ck, prog)
     check_order(ck, prog)
     check_outpos(ck, prog)
+    check_window(ck, prog)
+    check_limit_terms(ck, prog)
     from . import C03
-    C03.check_dict_siblings(ck, common.program(ck, ("liblzma",), files=("/lz/lz_decoder.c", "/lzma/lzma_decoder.c")))
+    pdec = common.program(ck, ("liblzma",), files=("/lz/lz_decoder.c", "/lzma/lzma_decoder.c"))
+    C03.check_dict_siblings(ck, pdec)
+    C03.check_dict_fresh(ck, pdec, rule="C01-DICTFRESH")
